@@ -239,6 +239,22 @@ def handle (op : String) (a : Json) : Except String Json := do
     let answers := runHist RallyGen.Percentiles.table [] evs
     let nclear := (evs.filter SEv.clears).length
     return ok (arr (answers.map resJ)) [s!"clears:{nclear}", s!"final-docs:{bucket (stateAfter [] evs).length}"]
+  | "race_history" =>
+    -- one race store directory: store(id, doc#, ts) / find(id) / list(max); answers in order
+    let evs ← (← getArr a "events").mapM (fun j => do
+      let e ← j.getObjValAs? String "e"
+      match e with
+      | "store" => return REv.store (← getStr j "id") ⟨← getNat j "ts", ← getNat j "doc"⟩
+      | "find" => return REv.find (← getStr j "id")
+      | "list" => return REv.list (← getNat j "max")
+      | _ => throw s!"unknown event {e}")
+    let docJ (d : RaceDoc) : Json := toJson d.doc
+    let ansJ' : RAns → Json
+      | .found d => Json.mkObj [("found", docJ d)]
+      | .notFound => Json.str "NotFound"
+      | .listed l => Json.mkObj [("listed", arr (l.map (fun e => arr [str e.1, docJ e.2])))]
+    let restores := (evs.filter (fun e => match e with | .store _ _ => true | _ => false)).length - (dirAfter [] evs).length
+    return ok (arr ((raceRun [] evs).map ansJ')) [s!"ids:{(dirAfter [] evs).length}", s!"re-stores:{if restores > 3 then 3 else restores}"]
   | "lookup" =>
     -- GlobalStats({"op_metrics": ops}).tasks() / .metrics(task)
     let ops ← match ← toJVal ((a.getObjVal? "ops").toOption.getD Json.null) with
